@@ -264,7 +264,7 @@ def replay_reset(model, q):
 
 
 def translator_validation(chk):
-    """Proxy arithmetic vs native: run the symbolic harness's oracle against native selections on random tables."""
+    """Proxy execution vs. native execution of the same real code on concrete tables (selected unit)."""
     import random as real_random
     rng = real_random.Random(chk.seed)
     for scheme in SCHEMES:
@@ -278,9 +278,29 @@ def translator_validation(chk):
             a = rng.choice(pos)
             d = [vals[a] * fractions.Fraction(rng.randint(1, 15), 16),
                  sum(-v for v in vals if v < 0) * fractions.Fraction(rng.randint(1, 15), 16)]
-            k = native_select(scheme, vals, a, d)
-            ok, why = oracle_ok(scheme, vals, a, d, k)
-            chk.validate("oracle vs native %s %s" % (scheme, [str(v) for v in vals]), ok, why)
+            try:
+                nat = native_select(scheme, vals, a, d)
+            except Exception as exc:  # noqa
+                nat = ("exception", type(exc).__name__)
+
+            def run(ex):
+                rnd = stubs.ReplayRandom([symx.SymReal(symx.realval(x)) for x in d])
+                undo1 = symx.patch_module(lifting_mod, random=rnd)
+                undo2 = symx.patch_module(ratio_mod, random=rnd)
+                try:
+                    lifting = SCHEMES[scheme]()
+                    lifting.reset()
+                    for i, r in enumerate(vals):
+                        lifting.insert(symx.SymReal(symx.realval(r)), (i,), i == a)
+                    return lifting.get_active_identifier()[0]
+                finally:
+                    undo1()
+                    undo2()
+            sym = None
+            for path in symx.Explorer().paths(run):
+                sym = path.result if path.exception is None else ("exception", type(path.exception).__name__)
+            chk.validate("proxy vs native %s %s" % (scheme, [str(v) for v in vals]), sym == nat,
+                         "proxy %r native %r" % (sym, nat))
 
 
 def main():
